@@ -234,6 +234,11 @@ func (b *BitMatrix) Rotate180() {
 				b.bits[offset+j] = curbits >> uint(32-shift)
 			}
 		}
+	} else {
+		// rows fill whole words: only the bit order inside each word is left to reverse
+		for i := range b.bits {
+			b.bits[i] = bits.Reverse32(b.bits[i])
+		}
 	}
 }
 
